@@ -132,7 +132,7 @@ def segsDisjoint : List Seg → Bool
 def segsOk (s : St) : Bool :=
   segsDisjoint s.segs &&
   (s.segs.all fun g => decide (g.base % 4096 = 0) && decide (g.size % 4096 = 0) && decide (0 < g.base) &&
-    decide (top_foot_size < g.size) && decide (s.least_addr ≤ g.base))
+    decide (top_foot_size < g.size) && decide (s.least_addr ≤ g.base) && decide (g.base + g.size ≤ 2 ^ 64))
 
 /-- sizes / alignment of the individual headers: a fencepost (8, in use), or a 16-aligned chunk whose
 size is a positive multiple of 16 (`top` may shrink to 16 bytes; binned chunks, `dv` and live chunks
